@@ -392,12 +392,18 @@ TypedValue evaluate_binary_op_typed(
                 error_msg(DebugMsgId::ZERO_DIVISION_ERROR);
                 throw std::runtime_error("Division by zero");
             }
+            if (left_int == INT64_MIN && right_int == -1) {
+                throw std::runtime_error("Arithmetic overflow in division");
+            }
             return make_integer_typed_value(left_int / right_int);
         }
     } else if (node->op == "%") {
         if (right_int == 0) {
             error_msg(DebugMsgId::ZERO_DIVISION_ERROR);
             throw std::runtime_error("Modulo by zero");
+        }
+        if (right_int == -1) {
+            return make_integer_typed_value(0);
         }
         return make_integer_typed_value(left_int % right_int);
     } else if (node->op == "==") {
